@@ -55,12 +55,15 @@ ProbeFieldOK(ev, f) ==
         rt(k, out) == ResponseOK(db, <<OpReadByType>> \o hb \o hb \o <<k, 40>>, out, ev.mtu, FALSE)
     IN  CASE f = "fx"  -> ev.fx = FirstIdx(db, h)
           [] f = "ix"  -> ev.ix = (IF h = 0 THEN -1 ELSE ExactIdx(db, h))
-          [] f = "fi"  -> ResponseOK(db, <<OpFindInfo>> \o hb \o hb, ev.fi, ev.mtu, FALSE)     \* reports h under h, or not found
+          \* discovery requests on the one-handle range h..h are judged here only where the table has an
+          \* attribute (it must report h, its type and its declaration value under h); what a range without
+          \* any attribute returns is C02's business
+          [] f = "fi"  -> HasAttr(db, h) => ResponseOK(db, <<OpFindInfo>> \o hb \o hb, ev.fi, ev.mtu, FALSE)
           [] f = "rd"  -> ReadOK(db, h, ev.rd, ev.mtu, FALSE)
-          [] f = "rt0" -> rt(0, ev.rt0)
-          [] f = "rt1" -> rt(1, ev.rt1)
-          [] f = "rt2" -> rt(2, ev.rt2)
-          [] f = "rt3" -> rt(3, ev.rt3)
+          [] f = "rt0" -> HasAttr(db, h) => rt(0, ev.rt0)
+          [] f = "rt1" -> HasAttr(db, h) => rt(1, ev.rt1)
+          [] f = "rt2" -> HasAttr(db, h) => rt(2, ev.rt2)
+          [] f = "rt3" -> HasAttr(db, h) => rt(3, ev.rt3)
 ProbeOK(ev) == \A i \in 1..Len(ProbeFields) : ProbeFieldOK(ev, ProbeFields[i])
 
 \* ---------------------------------------------------------------------------- C02 / C03
@@ -153,7 +156,11 @@ TNext ==
     \/ /\ l <= Len(Tr)
        /\ IF ENABLED Explain(Ev)
           THEN Explain(Ev) /\ l' = l + 1
-          ELSE PrintT(<<"MISMATCH", l>>) /\ PrintT(<<"WHY", l>> \o Why(Ev)) /\ l' = NextReset(l) /\ UNCHANGED vars
+          ELSE /\ PrintT(<<"MISMATCH", l>>) /\ PrintT(<<"WHY", l>> \o Why(Ev))
+               \* events that never change the state are judged one by one; after any other rejected event the
+               \* state is unknown and validation resumes at the next Reset
+               /\ l' = IF Ev.e \in {"Count", "Idx", "Probe", "Req", "Enum"} /\ db # <<>> THEN l + 1 ELSE NextReset(l)
+               /\ UNCHANGED vars
     \/ /\ l = Len(Tr) + 1
        /\ PrintT(<<"TRACE_DONE", Len(Tr)>>)
        /\ l' = l + 1 /\ UNCHANGED vars
